@@ -1,5 +1,6 @@
 """C04 - inner products, expectation values, environment blocks (structural part)."""
 import ast
+from ..defuse import before as _before
 
 from ..loader import norm, AnalysisError
 from .. import legs as lg
@@ -272,7 +273,7 @@ def rule_R4(chk, repo):
         defs = local_defs(fi.node)
         init = []
         for s in ast.walk(fi.node):
-            if isinstance(s, ast.Assign) and norm(s.targets[0]) == tvar and s.lineno < loop.lineno:
+            if isinstance(s, ast.Assign) and norm(s.targets[0]) == tvar and _before(fi.node, s, loop):
                 val = inline_call(s.value, repo, fi.module) or s.value
                 ids = [c_ for c_ in ast.walk(val) if isinstance(c_, ast.Call) and norm(c_.func) == 'np.identity']
                 if ids:
@@ -285,7 +286,7 @@ def rule_R4(chk, repo):
         if 'operator' in kernel and 'density' not in kernel:
             rs = []
             for s in ast.walk(fi.node):
-                if isinstance(s, ast.Assign) and norm(s.targets[0]) == tvar and s.lineno < loop.lineno:
+                if isinstance(s, ast.Assign) and norm(s.targets[0]) == tvar and _before(fi.node, s, loop):
                     val = inline_call(s.value, repo, fi.module) or s.value
                     rs += [c_ for c_ in ast.walk(val) if isinstance(c_, ast.Call) and isinstance(c_.func, ast.Attribute) and
                            c_.func.attr == 'reshape']
